@@ -103,8 +103,25 @@ def complex_parens_grow(ename, case, fail, obs):
     if "complex" not in case.get("tags", []):
         return False
     a, b = obs.get("arg") or "", obs.get("arg2") or ""
+    if "j" not in a:
+        return False
     strip = lambda t: t.replace("(", "").replace(")", "").replace(" ", "")
-    return "j" in a and strip(a) == strip(b)
+    if strip(a) == strip(b):
+        return True
+    # `-1j` is complex(-0.0, -1) and prints as (-0-1j), which evaluates to complex(0.0, -1) and prints as -1j:
+    # the two spellings are equal values whose reprs differ, so update flips between them
+    import sys
+    import types
+    from .engines import values as V
+    mod = types.ModuleType("vt_known_mod2")
+    sys.modules["vt_known_mod2"] = mod
+    try:
+        exec(compile(V.PRELUDE, "<prelude>", "exec"), mod.__dict__)
+        return bool(eval(a, mod.__dict__) == eval(b, mod.__dict__))
+    except Exception:  # noqa: BLE001
+        return False
+    finally:
+        sys.modules.pop("vt_known_mod2", None)
 
 
 def partially_ordered_set_elements(ename, case, fail, obs):
